@@ -518,7 +518,7 @@ Section Block.
       unfold ps_ver_malformed. unfold bline at 1 2.
       rewrite has_prefix_app. replace (st ++ c ++ en ++ [13; 10]) with ((st ++ c) ++ en ++ [13; 10]) at 1 by now rewrite <- app_assoc.
       rewrite has_suffix_app. cbn [negb orb].
-      unfold ps_ver_lo, ps_ver_hi.
+      unfold ps_ver_lo, ps_ver_hi, ps_ver_overlap.
       assert (zlen (bline c) - zlen en - 2 = zlen st + zlen c) as ->.
       { unfold bline. rewrite !zlen_app. change (zlen [13; 10]) with 2. lia. }
       replace (zlen st + zlen c <? zlen st) with false by (pose proof (zlen_nonneg c); lia).
